@@ -120,7 +120,8 @@ func buildTaffif(unitCostStr string) *charging_datatype.MonetaryTariff {
 		if digit, err := strconv.Atoi(strings.Replace(unitCostStr, ".", "", -1)); err == nil {
 			unitCost.ValueDigits = datatype.Integer64(digit)
 		}
-		unitCost.Exponent = datatype.Integer32(len(unitCostStr) - dotPos - 1)
+		// value = digits x 10^exponent: digits after the decimal point make the exponent negative
+		unitCost.Exponent = -datatype.Integer32(len(unitCostStr) - dotPos - 1)
 	}
 
 	return &charging_datatype.MonetaryTariff{
@@ -169,8 +170,8 @@ func handleSUR() diam.HandlerFunc {
 		}
 		unitCostStr := chargingInterface["unitCost"].(string)
 		monetaryTariff := buildTaffif(unitCostStr)
-		unitCost := datatype.Unsigned32(monetaryTariff.RateElement.UnitCost.ValueDigits) *
-			datatype.Unsigned32(math.Pow10(int(monetaryTariff.RateElement.UnitCost.Exponent)))
+		unitCost := datatype.Unsigned32(float64(monetaryTariff.RateElement.UnitCost.ValueDigits) *
+			math.Pow10(int(monetaryTariff.RateElement.UnitCost.Exponent)))
 		sua := charging_datatype.ServiceUsageResponse{
 			SessionId:      sur.SessionId,
 			EventTimestamp: datatype.Time(time.Now()),
